@@ -135,7 +135,7 @@ func (s *c11State) verify(list []error, exp []*c11Err, foreign int, who string) 
 		}
 	}
 	if nForeign != foreign {
-		return "library-error-count", fmt.Sprintf("%s.Errors() contains %d errors made by the library itself, expected %d (one per cell added to a separator row)", who, nForeign, foreign)
+		return "library-error-count", fmt.Sprintf("%s.Errors() contains %d errors made by the library itself, expected %d (one per cell added to a separator row, and the zero-valued error values the history added)", who, nForeign, foreign)
 	}
 	return "", ""
 }
@@ -179,6 +179,18 @@ func (s *c11State) verifyMulti(list []error, exp []*c11Err, foreign int, who str
 		return "library-error-count", fmt.Sprintf("%s.Errors() holds %d library-made errors, expected %d", who, nForeign, foreign)
 	}
 	return "", ""
+}
+
+// c11SameErr compares two errors for identity where their type is comparable (nil-slice multi-errors are matched by type and length).
+func c11SameErr(a, b error) bool {
+	if ma, ok := a.(c11MultiErr); ok {
+		mb, ok2 := b.(c11MultiErr)
+		return ok2 && len(ma) == len(mb)
+	}
+	if _, ok := b.(c11MultiErr); ok {
+		return false
+	}
+	return a == b
 }
 
 func firstWhat(exp []*c11Err) string {
@@ -235,7 +247,13 @@ func (s *c11State) step(r *gen.R) {
 	say := func(f string, a ...interface{}) { s.log = append(s.log, fmt.Sprintf(f, a...)) }
 	period := func() int { return r.Range(1, 3) }
 	s.dest = nil
-	switch r.Intn(25) {
+	switch r.Intn(26) {
+	case 25:
+		// errors whose value is the zero value of their type are errors all the same
+		say("t.AddError(zero-valued struct error); t.AddErrorList([error code 0, nil, NoSuchCellError{}])")
+		t.AddError(c11ZeroStructErr{})
+		t.AddErrorList([]error{c11CodeErr(0), nil, tabular.NoSuchCellError{}})
+		s.foreign += 3
 	case 22, 23:
 		// a second ("summary") table collects this table's errors so far; both go on afterwards
 		if s.t2 == nil {
@@ -501,9 +519,22 @@ func c11History(c *Ctx, i int, r *gen.R) {
 
 // ---- bare containers, exhaustive
 
-var c11ContOps = []string{"AddError(nil)", "AddError(e)", "AddErrorList(nil)", "AddErrorList([])", "AddErrorList([nil])", "AddErrorList([e]) then caller overwrites its list", "AddErrorList([e,nil,e]) then caller overwrites its list", "AddErrorList([nil,nil,e])", "AddErrorList([e,e]) with spare capacity, caller appends to its list afterwards", "B.AddErrorList(A.Errors())", "B.AddError(e)"}
+var c11ContOps = []string{"AddError(nil)", "AddError(e)", "AddErrorList(nil)", "AddErrorList([])", "AddErrorList([nil])", "AddErrorList([e]) then caller overwrites its list", "AddErrorList([e,nil,e]) then caller overwrites its list", "AddErrorList([nil,nil,e])", "AddErrorList([e,e]) with spare capacity, caller appends to its list afterwards", "B.AddErrorList(A.Errors())", "B.AddError(e)", "AddError(zero-valued error values)", "AddErrorList([zero-valued struct error, nil, error code 0])"}
 
 var c11Scribble = errors.New("the caller's own later use of its list")
+
+// errors which are non-nil but equal to the zero value of their type
+type c11ZeroStructErr struct{}
+
+func (c11ZeroStructErr) Error() string { return "an error of an empty struct type" }
+
+type c11CodeErr int
+
+func (c c11CodeErr) Error() string { return fmt.Sprintf("error code %d", int(c)) }
+
+type c11MultiErr []error
+
+func (m c11MultiErr) Error() string { return fmt.Sprintf("%d errors", len(m)) }
 
 func c11Containers(c *Ctx, i int, r *gen.R) {
 	nb := len(c11ContOps)
@@ -576,6 +607,18 @@ func c11Containers(c *Ctx, i int, r *gen.R) {
 			e := errors.New(fmt.Sprintf("b%d", n))
 			second.AddError(e)
 			expB = append(expB, e)
+		case 11:
+			for _, e := range []error{c11ZeroStructErr{}, c11CodeErr(0), c11MultiErr(nil), tabular.NoSuchCellError{}} {
+				ec.AddError(e)
+				if kind != 2 {
+					exp = append(exp, e)
+				}
+			}
+		case 12:
+			ec.AddErrorList([]error{c11ZeroStructErr{}, nil, c11CodeErr(0)})
+			if kind != 2 {
+				exp = append(exp, c11ZeroStructErr{}, c11CodeErr(0))
+			}
 		}
 		c.Rec.Count("container_comparisons", 2)
 		for which, pair := range []struct {
@@ -591,7 +634,7 @@ func c11Containers(c *Ctx, i int, r *gen.R) {
 				bad = fmt.Sprintf("Errors() has %d entries %v, expected the %d non-nil inputs in order", len(got), got, len(exp))
 			} else {
 				for j := range got {
-					if got[j] != exp[j] {
+					if !c11SameErr(got[j], exp[j]) {
 						bad = fmt.Sprintf("Errors()[%d]=%v, expected %v", j, got[j], exp[j])
 						break
 					}
